@@ -123,6 +123,11 @@ def match_schemas(w_schema, r_schema, named_schemas):
         elif w_type not in AVRO_TYPES and r_type in NAMED_TYPES:
             if match_types(w_type, r_schema["name"], named_schemas):
                 return r_schema["name"]
+        elif w_type in NAMED_TYPES and r_type not in AVRO_TYPES:
+            # The reader refers by name to a type the writer defines inline
+            r_named = named_schemas["reader"].get(r_type)
+            if r_named is not None and match_types(w_schema, r_named, named_schemas):
+                return r_named
         elif match_types(w_type, r_type, named_schemas):
             return r_schema
         raise SchemaResolutionError(error_msg)
